@@ -19,7 +19,7 @@ from typing import Dict, List
 from core import Case
 
 PID = "C15"
-LEAN_MODULES = ["KrroodVerif.Props.C15"]
+LEAN_MODULES = ["KrroodVerif.Props.C15", "KrroodVerif.Props.C15Rules"]
 THEOREMS = [
     "KrroodVerif.PD.C15_sound",
     "KrroodVerif.PD.C15_closed",
@@ -34,6 +34,14 @@ THEOREMS = [
     "KrroodVerif.PD.C15_cex_falsy_not_recorded",
     "KrroodVerif.PD.run_eq_closure",
     "KrroodVerif.PD.schema_UClosed",
+    # second tie: the inference rules as a table regenerated from the Python AST (Props/C15Rules.lean)
+    "KrroodVerif.PD.addFact_eq_interp",
+    "KrroodVerif.PD.schemaSem_toRules",
+    "KrroodVerif.PD.runGen_eq_closure",
+    "KrroodVerif.PD.C15_rules_closure",
+    "KrroodVerif.PD.C15_rules_order_independent",
+    "KrroodVerif.PD.C15_rules_agree_with_model",
+    "KrroodVerif.PD.C15_rules_cex_skip_inferred",
 ]
 MODEL_FUNCTION = ("PD.addFact / PD.addCore / PD.uRule / PD.updateValue / PD.step / PD.runModel "
                   "(Model/Descriptor.lean); specification PD.closure = PD.Derivable (C15_spec_exec)")
@@ -74,6 +82,47 @@ RULE = ("random well-typed histories (1..8 assertions quick, ..12 thorough) of s
         "takers, self loops, cycles and diamonds in transitive relations; each history also in reversed and random "
         "permuted order; non-trivial = at least two relations were inferred beyond the asserted ones; distinct by "
         "case text")
+
+
+def extra_obligations():
+    """Second tie, by translation: regenerate the rule table (`Translated.rules`, `Translated.proc`) from the CURRENT
+    source of property_descriptor_relation.py / property_descriptor.py and have the kernel re-check (1) that it is the
+    table the hand-written model transcribes (`addFact_eq_interp` then says the interpreter on it IS `addFact`),
+    (2) that it satisfies `RulesOk`, hence (3) — generic theorem `C15_rules_order_independent`, proved once — that
+    the procedure the source describes is order independent. A rejected or changed translation is not by itself a
+    violation: core.py then searches for a concrete failing input."""
+    import os
+    import subprocess
+    import core
+    from translate.c15_translate import OBLIGATIONS as names, TranslationError, generate as gen
+    try:
+        text = gen(core.REPO)
+    except (TranslationError, SyntaxError, OSError) as e:
+        return [{"name": n, "ok": False, "detail": f"translator rejected the source: {e}"} for n in names]
+    tmp = core.LEAN_DIR / ".lake" / "audit"
+    tmp.mkdir(parents=True, exist_ok=True)
+    f = tmp / f"C15Translated_{os.getpid()}.lean"
+    f.write_text(text + "".join(f"#print axioms {n}\n" for n in names))
+    try:
+        p = subprocess.run(["lake", "env", "lean", str(f)], cwd=str(core.LEAN_DIR), capture_output=True, text=True,
+                           timeout=600)
+    finally:
+        try:
+            f.unlink()
+        except OSError:
+            pass
+    out = " ".join(((p.stdout or "") + (p.stderr or "")).split())
+    table = text.split("def proc")[0].split("def rules", 1)[-1]
+    res = []
+    for n in names:
+        m = re.search(r"'" + re.escape(n) + r"' depends on axioms: \[([^\]]*)\]", out)
+        none = re.search(r"'" + re.escape(n) + r"' does not depend on any axioms", out)
+        ax = [a.strip() for a in m.group(1).split(",")] if m else ([] if none else None)
+        # a theorem whose proof failed is recorded by Lean with `sorryAx`: judged per theorem
+        ok = ax is not None and set(ax) <= core.ALLOWED_AXIOMS
+        res.append({"name": n, "ok": ok, "axioms": ax,
+                    "detail": "translated table:" + table[:1800] + "\n" + (p.stdout or "")[-1500:] + (p.stderr or "")[-500:]})
+    return res
 
 
 def budget(tier: str) -> int:
